@@ -14,7 +14,7 @@ for d in $DIR/$PAT/; do
   hit=""; und=""
   for id in $IDS; do
     out=$(bin/rdpgwlint -property $id -tier quick -repo "$REPO" 2>&1); rc=$?
-    if [ $rc -eq 1 ]; then hit="$hit $id"; echo "$out" | grep -q "undecided" && und="$und $id"; fi
+    if [ $rc -eq 1 ]; then hit="$hit $id"; echo "$out" | grep -q "\] undecided:" && und="$und $id"; fi
     [ $rc -ge 2 ] && hit="$hit $id(ERR)"
   done
   (cd "$REPO" && git apply -R "$ap") || echo "UNDO-FAILED $d"
